@@ -3,6 +3,7 @@ INVARIANT Inv
 CONSTANTS
   MaxLen = 5
   MaxTok = 4
+  MaxFrag = 3
   EmitLen = 4
   EmitTok = 3
   Bounded = TRUE
